@@ -3761,6 +3761,17 @@ func heapGetFreshRule(c *Ctx, r *Result, rule string) {
 					return true
 				case *ssa.Const:
 					return x.IsNil()
+				case *ssa.Call:
+					// append([]byte(nil), src...), append(make(..), src...), bytes.Clone / slices.Clone
+					if b, isB := x.Call.Value.(*ssa.Builtin); isB && b.Name() == "append" && len(x.Call.Args) > 0 {
+						return isNilConst(x.Call.Args[0]) || walk(x.Call.Args[0])
+					}
+					if f := x.Call.StaticCallee(); f != nil && f.Name() == "Clone" && (fnPkgPath(f) == "bytes" || fnPkgPath(f) == "slices") {
+						return true
+					}
+				case *ssa.Slice:
+					// a reslice of fresh memory is fresh
+					return walk(x.X)
 				}
 				return false
 			}
